@@ -354,7 +354,7 @@ package circuitbreaker
 //@   modifies nothing
 //@ spec func allValidLists(m) = (forall r Str :: has(m, r) ==> allocated(base(m[r]))) && (forall r Str :: forall k Int :: has(m, r) && 0 <= k && k < len(m[r]) ==> validRule(m[r][k]))
 //@ func onRuleUpdate(rawResRulesMap) err
-//@   props C13, C15
+//@   props C13
 //@   requires[holds-the-update-lock]{C15} wlockcount(updateRuleMux) > 0
 //@   requires breakers != nil && breakerRules != nil
 //@   ensures[raw-recorded] err == nil ==> currentRules == rawResRulesMap
